@@ -409,6 +409,13 @@ class C02(ReduceProp):
     thorough_n = 15000
 
     def gen(self, rng, tier, i):
+        if i % 5 == 4:
+            # nan-skipping reductions of INTEGER data on the default engine (numbagg has no fill argument: flox patches the
+            # slots of groups a block has not seen), reindexed at the block stage, few groups so that blocks lack some
+            return make_case(rng, chunked=True, nmax=10 if tier == "quick" else 24, mcs=(None, None, 1),
+                             funcs=["nanmin", "nanmax", "nansum", "nanprod", "nanmean", "nanfirst", "nanlast", "count", "nanvar"],
+                             dtypes=["int64", "int64", "int8", "uint8", "int32"], engines=[None, "numbagg", "numbagg"],
+                             methods=(None, "map-reduce", "map-reduce", "cohorts"))
         return make_case(rng, chunked=True, nmax=10 if tier == "quick" else 24, mcs=(None, None, 1, 2))
 
 
